@@ -81,7 +81,7 @@ CHECKS["C07"] = hist("TestC07", "rapid draws topologies, 1-3 deployments sharing
     "(deployment pods never reuse a name), and histories whose concurrent episodes run 2-3 of: Filter of different pods, schedule, "
     "POST /v1/pool with preAllocateIP, pool size update, unbind - interleaved by the cooperative scheduler at every lister/IPAM/API call. "
     "Oracle after every op and every scheduler step: #IPs keyed under pool__<name>_ <= max(count when the op/episode started, largest "
-    "size in force in truth or lister during it). Non-trivial = an episode in which >= 2 ops overlapped; distinct by SHA-1 of the case.",
+    "size in force in truth or lister during it, or since the successful filter of a pod of the pool whose bind is still to come - a scheduling attempt is filter + bind, and a pool without Pool object is capped by replicas, not by a size). Non-trivial = an episode in which >= 2 ops overlapped; distinct by SHA-1 of the case.",
     quick=2500, thorough=120000, floors={"episode_overlapped": 0.2, "pre_allocation": 0.1}, enum=True)
 CHECKS["C09"] = hist("TestC09", GEN + "Sequences of 2-4 configurations (ranges shrink/grow/move, pools disappear, node subnets change), "
     "administrator reservations (labelled FloatingIP) whose watch event is delivered early/late/never, and episodes running one reload "
